@@ -65,7 +65,7 @@ var (
 	local6   = a6(1) // NIC 1 only
 	unass6   = a6(9)
 	foreign6 = []string{a6(100), a6(101)}
-	ports    = []uint16{53, 80, 9000}
+	ports    = []uint16{53, 80, 443, 9000}
 	rports   = []uint16{7, 8}
 )
 
@@ -646,6 +646,23 @@ func (w *world) anyLocal(net int) string {
 	return pick(w.r, local4[nic])
 }
 
+// localOn: mostly an address the NIC currently holds (so that the packet passes the address
+// filter and the demultiplexer is exercised), sometimes any address of the universe
+func (w *world) localOn(nic, net int) string {
+	if w.r.Intn(5) != 0 {
+		var l []string
+		for _, a := range w.s.VerifAddrs() {
+			if int(a.NIC) == nic && int(a.Proto) == net {
+				l = append(l, string(a.Addr))
+			}
+		}
+		if len(l) > 0 {
+			return l[w.r.Intn(len(l))]
+		}
+	}
+	return w.anyLocal(net)
+}
+
 func (w *world) anyForeign(net int) string {
 	if net == pV6 {
 		return pick(w.r, foreign6)
@@ -679,9 +696,13 @@ func (w *world) genPacket() pkt {
 		p.dst, p.dport = string(x.ID.LocalAddress), x.ID.LocalPort
 		p.src, p.sport = string(x.ID.RemoteAddress), x.ID.RemotePort
 		if p.dst == "" {
-			p.dst = w.anyLocal(p.net)
-			if p.net == pV4 && r.Intn(3) != 0 {
-				p.dst = pick(r, local4[p.nic])
+			p.dst = w.localOn(p.nic, p.net)
+		} else if x.NIC == 0 && r.Intn(4) != 0 {
+			// arrive on the NIC that holds the destination
+			for _, a := range w.s.VerifAddrs() {
+				if string(a.Addr) == p.dst {
+					p.nic = int(a.NIC)
+				}
 			}
 		}
 		if p.src == "" {
@@ -716,10 +737,7 @@ func (w *world) genPacket() pkt {
 		if r.Intn(3) == 0 {
 			p.trans = pTCP
 		}
-		p.dst = w.anyLocal(p.net)
-		if p.net == pV4 && r.Intn(2) == 0 {
-			p.dst = pick(r, local4[p.nic])
-		}
+		p.dst = w.localOn(p.nic, p.net)
 		p.src = w.anyForeign(p.net)
 		p.dport = ports[r.Intn(len(ports))]
 		if r.Intn(8) == 0 {
@@ -731,13 +749,28 @@ func (w *world) genPacket() pkt {
 		p.net = pV4
 	}
 	if (p.net == pV6) != (len(p.dst) == 16) {
-		p.dst = w.anyLocal(p.net)
+		p.dst = w.localOn(p.nic, p.net)
+	}
+	if p.net == pV6 && r.Intn(3) != 0 {
+		p.nic = 1 // the only NIC with an IPv6 address
 	}
 	if (p.net == pV6) != (len(p.src) == 16) {
 		p.src = w.anyForeign(p.net)
 	}
 	if p.trans == pTCP {
-		switch r.Intn(8) {
+		held := false
+		for _, a := range w.s.VerifAddrs() {
+			if int(a.NIC) == p.nic && string(a.Addr) == p.dst {
+				held = true
+			}
+		}
+		k := r.Intn(8)
+		if !held && !w.linger && k > 2 {
+			// a SYN that a promiscuous NIC / a subnet lets through to a listener would leave the
+			// temporary network endpoint referenced for ever (see leakOne): only with -linger
+			k = 0
+		}
+		switch k {
 		case 0:
 			p.flags = netx.FlagAck
 		case 1:
@@ -824,7 +857,7 @@ func history(r *gen.Rng, steps int, linger bool, stats map[string]int) string {
 			sk := w.newSock(kind, net)
 			a := ""
 			if r.Intn(5) < 3 {
-				a = w.anyLocal(net)
+				a = w.localOn(1+r.Intn(2), net)
 			}
 			nic := w.pickNic0()
 			if w.bind(sk, nic, a, ports[r.Intn(len(ports))]) == 0 && kind == pTCP && r.Intn(10) < 8 {
